@@ -144,8 +144,8 @@ NAME_ALPHABET = 'abz09_-.'
 
 def k2_test_names(i1: List[int], i2: List[int], i3: List[int]) -> bool:
     """
-    pre: _idx_ok(i1, P['n'], FILE_ALPHABET, 1) and _idx_ok(i2, P['n'], FILE_ALPHABET, 1)
-    pre: _idx_ok(i3, P['n'], FILE_ALPHABET, 1)
+    pre: _idx_ok(i1, P['n'], FILE_ALPHABET, 1) and _idx_ok(i2, 2, FILE_ALPHABET, 1)
+    pre: _idx_ok(i3, 1, FILE_ALPHABET, 1)
     post: __return__
     """
     return test_names_body(i1, i2, i3)
@@ -168,7 +168,7 @@ def test_names_body(i1, i2, i3):
     return not (set(full) & reserved)
 
 
-FILE_ALPHABET = 'a2-'
+FILE_ALPHABET = 'a2-\u00b2'      # U+00B2 (superscript two) is alphanumeric but cannot occur in an identifier
 _BASE = gc.make_generator('test_x.py')      # one real constructor call, outside tracing
 _BASE_NAMES = set(_BASE.test_names)
 
@@ -295,6 +295,54 @@ def k4_copy_refs(present: List[bool], iterations: int) -> bool:
     return all(fs.files.get(p_) == c for p_, c in files.items())
 
 
+ONE_RUN_FILES = ['/cwd/o.txt', '/cwd/sub/o.txt', '/cwd/sub/pic.png', '/elsewhere/r.csv']
+
+
+def k2_one_iteration(present: List[bool]) -> bool:
+    """
+    pre: len(present) == len(ONE_RUN_FILES) and not (present[0] and present[1])
+    post: __return__
+    """
+    # generation with a single run leaves no per-file type information, so write_script has to look at the
+    # files itself: it must finish for output files anywhere (working directory, below it, outside it) and
+    # give each one the text or binary test its reference copy calls for
+    import copy
+    import ast
+    files = {p_: 'content of ' + p_ for p_, on in zip(ONE_RUN_FILES, present) if on}
+    fs = fakefs.FakeFS(files, dirs=['/cwd', '/cwd/sub', '/elsewhere'])
+
+    class SniffingFileType(gc.FT):
+        # like utils.FileType: the type comes from the extension, the encoding from reading the file
+        def __init__(self, path):
+            full = path if path.startswith('/') else '/cwd/' + path
+            if full not in fs.files:
+                raise FileNotFoundError(2, 'No such file or directory: %r' % (path,))
+            gc.FT.__init__(self, text=not path.endswith('.png'))
+    saved = gentest.FileType
+    gentest.FileType = SniffingFileType
+    try:
+        with fakefs.patched(fs, gentest):
+            g = copy.copy(_BASE)
+            g.test_names = set(_BASE_NAMES)
+            g.iterations = 1
+            g.ref_map = {}
+            g.reference_files = {1: sorted(files)}
+            import io
+            import contextlib
+            with contextlib.redirect_stdout(io.StringIO()):
+                g.create_or_empty_ref_dir()
+                g.copy_reference_files(1)
+                g.generate_exclusions()
+            text = gc.write_script_text(g, fs)
+    finally:
+        gentest.FileType = saved
+    compile(text, 'test_x.py', 'exec')
+    n_text = text.count('assertTextFileCorrect(')
+    n_bin = text.count('assertBinaryFileCorrect(')
+    want_bin = sum(1 for p_ in files if p_.endswith('.png'))
+    return n_bin == want_bin and n_text == len(files) - want_bin
+
+
 def k3_deleters_guard() -> bool:
     """
     post: __return__
@@ -329,8 +377,13 @@ def _obs():
     for n, tier, to in ((2, 'quick', 400), (3, 'thorough', 3000)):
         obs.append(Ob('K2', 'k2_test_names', 'test names generated for three output files are identifiers, pairwise '
                       'distinct, and distinct from the stream/exit-code/exception tests',
-                      '3 basenames: every string len 1..%d over %r (symbolic index per position)' % (n, FILE_ALPHABET), param={'n': n},
+                      '3 basenames: every string len 1..%d, 1..2 and 1 over %r (symbolic index per position)' % (n, FILE_ALPHABET), param={'n': n},
                       timeout=to, tier=tier))
+    obs.append(Ob('K2', 'k2_one_iteration', 'with a single run (no per-file type information) write_script finishes '
+                  'and writes a compiling script with one text or binary file test per output file, wherever the '
+                  'file lies', 'symbolic subset of %d output files (in the working directory, below it, outside it; '
+                  'text and binary)' % len(ONE_RUN_FILES), timeout=300,
+                  stubs=['fakefs', 'FileType -> extension-based double that must be able to open its path']))
     for n, tier, to in ((4, 'quick', 300), (6, 'thorough', 2400)):
         obs.append(Ob('K2', 'k2_quote_raw', 'quote_raw(s) evaluates back to s', 's = ^ + body + $ with body every string len<=%d over %r (symbolic index per position) '
                       '(rexpy patterns are anchored)' % (n, QUOTE_ALPHABET), param={'n': n}, timeout=to, tier=tier))
